@@ -79,7 +79,7 @@ class Node(object):
         finally:
             if scope is not None:
                 scope.process_depth -= 1
-        return tokens
+        return utility.fold_signs(tokens)
 
     def replace_variables(self, tokens, scope):
         """ Replace variables in tokenlist
